@@ -302,7 +302,14 @@ def check(ctx):
     rep.count('dunder_instances', n_inst)
     rep.floor('R1', 'dunder x operand-sort instances', n_inst, 150)
     _merging(rep, model)
+    _vector_sum_nesting(rep, model)
     _fun_merging(rep, model)
+    # R3e: the expression classes on concrete leaves (model spaces with
+    # symbolic entries; leaves that return views of their input included):
+    # op(x, out=x) leaves the out-of-place value in x - the aliased arm of
+    # R3a evaluated where the leaves are not uninterpreted
+    from . import c10b
+    c10b.run(rep, model, rule='R3e', kinds=('nonlinear',), floor=20)
     return rep
 
 
@@ -678,6 +685,80 @@ def _fun_merging(rep, model):
                     rep.violation('R1', cls + '.__init__', '%s: raises %s'
                                   % (tag, e.name), FUN, line)
     rep.floor('R1', 'nested functional expressions', n, 40)
+
+
+def _vector_sum_nesting(rep, model):
+    """Nested affine shifts `(A + v) + w`, `w + (A + v)`, `(A + v) - w`:
+    the expression denotes A(x) + v +- w and building it leaves the caller's
+    vectors untouched (a constructor that folds the vectors must not
+    accumulate into the object it was handed)."""
+    ci = model.get('OperatorVectorSum')
+    if ci is None:
+        raise AnalysisError('anchor vanished: OperatorVectorSum')
+    line = ci.methods['__init__'].lineno
+    for form in ('(A + v) + w', 'w + (A + v)', '(A + v) - w'):
+        for field in ('R', 'C'):
+            for lin in (False, True):
+                tag = 'OperatorVectorSum[%s,%s,linear=%s]' % (form, field,
+                                                              lin)
+
+                def body(I):
+                    c = Case(I, field, lin)
+                    A = I.opsym('A', c.X, c.Y, lin)
+                    v = Vec(vs.sym('v'), c.Y)
+                    w = Vec(vs.sym('w'), c.Y)
+                    inner = I.binop(ast.Add, A, v)
+                    if form == '(A + v) + w':
+                        outer = I.binop(ast.Add, inner, w)
+                    elif form == 'w + (A + v)':
+                        outer = I.binop(ast.Add, w, inner)
+                    else:
+                        outer = I.binop(ast.Sub, inner, w)
+                    got = apply(I, outer, c.x)
+                    want = I.binop(ast.Add, apply(I, A, c.x), Vec(
+                        vs.sym('v'), c.Y))
+                    want = I.binop(ast.Sub if form.endswith('- w')
+                                   else ast.Add, want, Vec(vs.sym('w'), c.Y))
+                    # a second expression built with the same w afterwards
+                    Bo = I.opsym('B', c.X, c.Y, lin)
+                    got2 = apply(I, I.binop(ast.Add, Bo, w), c.x)
+                    want2 = I.binop(ast.Add, apply(I, Bo, c.x), Vec(
+                        vs.sym('w'), c.Y))
+                    return (vs.freeze(got.val) == vs.freeze(want.val),
+                            vs.show(got.val), vs.show(want.val),
+                            vs.freeze(w.val) == vs.freeze(vs.sym('w')),
+                            vs.freeze(v.val) == vs.freeze(vs.sym('v')),
+                            vs.freeze(got2.val) == vs.freeze(want2.val),
+                            vs.show(w.val))
+                try:
+                    for ok, gs, ws, wok, vok, ok2, wshow in run_leaves(
+                            model, body):
+                        probs = []
+                        if not ok:
+                            probs.append('evaluates to %s, expected %s' % (
+                                gs, ws))
+                        if not wok:
+                            probs.append('the caller\'s vector w now holds '
+                                         '%s' % wshow)
+                        if not vok:
+                            probs.append('the caller\'s vector v is '
+                                         'modified')
+                        if not ok2:
+                            probs.append('a later expression B + w '
+                                         'evaluates with another w')
+                        if probs:
+                            rep.violation('R1', 'OperatorVectorSum.__init__',
+                                          '%s: %s' % (tag, '; '.join(probs)),
+                                          ci.rel, line)
+                        else:
+                            rep.holds('R1', tag, 'A(x) + v +- w, operands '
+                                      'untouched')
+                except Undecided as e:
+                    rep.undecided('R1', tag, str(e), ci.rel, line)
+                except PyRaise as e:
+                    rep.violation('R1', 'OperatorVectorSum.__init__',
+                                  '%s: raises %s' % (tag, e.name), ci.rel,
+                                  line)
 
 
 def _merging(rep, model):
